@@ -169,25 +169,51 @@ where
 struct ScopedSnapshotState<'a, H: Host> {
     pub emulator: &'a mut Emulator<H>,
     pub is_48k: bool,
+    // bytes below SP which are temporarily replaced by PC (48K only)
+    saved_stack_bytes: [u8; 2],
 }
 
 impl<'a, H: Host> ScopedSnapshotState<'a, H> {
     fn enter(emulator: &'a mut Emulator<H>) -> Self {
         let is_48k = emulator.settings.machine == ZXMachine::Sinclair48K;
+        let mut saved_stack_bytes = [0u8; 2];
         if is_48k {
-            emulator.cpu.push_pc_to_stack(&mut emulator.controller);
+            // Place PC on the stack image directly in memory: no bus cycles, so neither
+            // the frame clock nor any device is disturbed by taking a snapshot
+            let sp = emulator.cpu.regs.get_sp();
+            let [pcl, pch] = emulator.cpu.regs.get_pc().to_le_bytes();
+            let (addr_hi, addr_lo) = (sp.wrapping_sub(1), sp.wrapping_sub(2));
+            saved_stack_bytes = [
+                emulator.controller.memory.read(addr_lo),
+                emulator.controller.memory.read(addr_hi),
+            ];
+            emulator.controller.memory.write(addr_hi, pch);
+            emulator.controller.memory.write(addr_lo, pcl);
+            emulator.cpu.regs.set_sp(addr_lo);
         }
 
-        Self { emulator, is_48k }
+        Self {
+            emulator,
+            is_48k,
+            saved_stack_bytes,
+        }
     }
 }
 
 impl<'a, H: Host> Drop for ScopedSnapshotState<'a, H> {
     fn drop(&mut self) {
         if self.is_48k {
+            let addr_lo = self.emulator.cpu.regs.get_sp();
+            let addr_hi = addr_lo.wrapping_add(1);
             self.emulator
-                .cpu
-                .pop_pc_from_stack(&mut self.emulator.controller);
+                .controller
+                .memory
+                .write(addr_lo, self.saved_stack_bytes[0]);
+            self.emulator
+                .controller
+                .memory
+                .write(addr_hi, self.saved_stack_bytes[1]);
+            self.emulator.cpu.regs.set_sp(addr_lo.wrapping_add(2));
         }
     }
 }
@@ -198,7 +224,9 @@ where
     R: DataRecorder,
 {
     let state = ScopedSnapshotState::enter(emulator);
-    let ScopedSnapshotState { emulator, is_48k } = &state;
+    let ScopedSnapshotState {
+        emulator, is_48k, ..
+    } = &state;
 
     let mut header = [0u8; SNA_HEADER_SIZE];
     // interrupt register
